@@ -249,8 +249,10 @@ def make_score(name):
     from skchange.change_scores import CUSUM, ChangeScore
     from skchange.costs import GaussianVarCost, L2Cost
 
+    from skchange.costs import GaussianCovCost
+
     return {"CUSUM": lambda: CUSUM(), "L2": lambda: ChangeScore(L2Cost()), "L2cost": lambda: L2Cost(),
-            "GV": lambda: ChangeScore(GaussianVarCost())}[name]()
+            "GV": lambda: ChangeScore(GaussianVarCost()), "Cov": lambda: GaussianCovCost()}[name]()
 
 
 def check_data(acc, case, key):
@@ -260,16 +262,29 @@ def check_data(acc, case, key):
     n, p = X.shape
     msl, M, g = case["msl"], case["M"], case["growth"]
     Xf = pd.DataFrame(X)
-    cpts, rows, thr, det = sbs(n, p, msl, M, g, make_score(case["score"]), case["thr_scale"], X=Xf, level=case.get("level"),
-                               fit_rows=case.get("fit_rows"))
+    try:
+        cpts, rows, thr, det = sbs(n, p, msl, M, g, make_score(case["score"]), case["thr_scale"], X=Xf, level=case.get("level"),
+                                   fit_rows=case.get("fit_rows"))
+    except RuntimeError:
+        if case["score"] != "Cov":
+            raise
+        acc.count("cov_data_with_a_singular_window_skipped")
+        return
     if not check_intervals(acc, case, key, rows, n, msl, M):
         return
-    ref = make_score("L2" if case["score"] == "L2cost" else case["score"]).fit(X)
+    if case["score"] == "Cov":
+        # multivariate cost: oracle = the DEFINITION C(s,e) - C(s,k) - C(k,e), each term from a fresh cost on exactly those rows
+        mk = lambda: make_score("Cov")  # noqa: E731
 
-    def agg(s, e):
-        ks = splits_of(s, e, msl)
-        vals = ref.evaluate(np.array([(s, k, e) for k in ks])).sum(axis=1)
-        return list(zip(ks, map(float, vals)))
+        def agg(s, e):
+            return [(k, util.whole_cost(mk, X[s:e]) - util.whole_cost(mk, X[s:k]) - util.whole_cost(mk, X[k:e])) for k in splits_of(s, e, msl)]
+    else:
+        ref = make_score("L2" if case["score"] == "L2cost" else case["score"]).fit(X)
+
+        def agg(s, e):
+            ks = splits_of(s, e, msl)
+            vals = ref.evaluate(np.array([(s, k, e) for k in ks])).sum(axis=1)
+            return list(zip(ks, map(float, vals)))
 
     if not check_rows(acc, case, key, rows, msl, agg, tol=1e-8):
         return
@@ -395,6 +410,10 @@ def greedy_dev_cases(tier):
 
 
 def data_cases(tier, seed):
+    # multivariate cost (one output column whatever p is) on two generic columns
+    for n in (6, 7, 8) if tier == "quick" else (6, 7, 8, 9, 10, 11):
+        for xs in itertools.product((0, 3), repeat=n):
+            yield {"fam": "data", "x": util.two_generic_columns(xs), "n": n, "score": "Cov", "msl": 3, "M": n, "growth": 1.5, "thr_scale": 0.05}
     a, b = util.seed_affine(seed)
     alphs2 = [(0, 4)]
     alphs3 = [(0, 1, 3), tuple(a + b * x for x in (0, 1, 3))]
